@@ -8,6 +8,7 @@ reads included) and - where it says so - every ending of the stream; no bound on
 `decodeAll` the same loop over `protoDecoder.DecodeNext`.
 -/
 import ConfModel.Lemmas.Delimited
+import ConfModel.Generated.C09Facts
 namespace ConfModel.Props.C09
 open ConfModel.Delimited ConfModel.Framing
 
@@ -158,6 +159,116 @@ aside), on any input. -/
 theorem allocs_bounded (max count : Nat) (r : Reader) :
     ∀ a ∈ (readAll max count r).allocs, a = 4 ∨ a ≤ max :=
   readAll_allocs max count r
+
+/-! ### the 32-bit length prefix and the limit of each call site -/
+
+/-- **All 2^32 prefixes.**  The size the reader computes from the four prefix bytes — in
+`uint32` arithmetic (shifts and ors), then converted to `int` — is their big-endian value: never
+negative, below 2^32, for every one of the 2^32 prefixes. -/
+theorem prefix_size_total (b0 b1 b2 b3 : UInt8) :
+    msgSize [b0, b1, b2, b3] = Int.ofNat (be32 [b0, b1, b2, b3]) ∧
+      0 ≤ msgSize [b0, b1, b2, b3] ∧ msgSize [b0, b1, b2, b3] < 4294967296 := by
+  have h := msgSize_eq_be32 [b0, b1, b2, b3] rfl
+  have hlt := be32_lt [b0, b1, b2, b3] rfl
+  refine ⟨h, ?_, ?_⟩ <;> rw [h] <;> simp only [Int.ofNat_eq_natCast] <;> omega
+
+/-- **Oversize, for every prefix.**  Whatever four bytes the stream starts with: if their value
+is above the limit the reader reports `tooLarge` with that value, has taken exactly those four
+bytes and has allocated nothing but the prefix buffer — whatever follows, however the bytes
+are split over reads, however the stream ends.  (`oversize_rejected_early` below is the same after
+any number of good messages.) -/
+theorem oversize_prefix_rejected (max : Nat) (b0 b1 b2 b3 : UInt8) (rest : Bytes)
+    (caps : List Nat) (e : Ending) (h : max < be32 [b0, b1, b2, b3]) :
+    ∃ caps', readMessage max ⟨b0 :: b1 :: b2 :: b3 :: rest, caps, e⟩ =
+      ⟨.tooLarge (be32 [b0, b1, b2, b3]), ⟨rest, caps', e⟩, [4]⟩ :=
+  readMessage_tooLarge max (b0 :: b1 :: b2 :: b3 :: rest) caps e (by simp) h
+
+/-- **Top bit set.**  A stream whose first byte is ≥ 0x80 (a UTF-8 byte-order mark, non-ASCII
+text, UTF-16, binary) announces at least 2^31 bytes: with any limit below 2^31 it is rejected as
+too large, like every other oversize prefix — the size is not negative and nothing is allocated. -/
+theorem highbit_prefix_rejected (max : Nat) (hmax : max < 2147483648) (b0 b1 b2 b3 : UInt8)
+    (hb : 128 ≤ b0.toNat) (rest : Bytes) (caps : List Nat) (e : Ending) :
+    ∃ caps', readMessage max ⟨b0 :: b1 :: b2 :: b3 :: rest, caps, e⟩ =
+      ⟨.tooLarge (be32 [b0, b1, b2, b3]), ⟨rest, caps', e⟩, [4]⟩ := by
+  apply oversize_prefix_rejected
+  simp only [be32, List.foldl_cons, List.foldl_nil]
+  omega
+
+/-- hypotheses of `oversize_prefix_rejected` / `highbit_prefix_rejected`: a UTF-8 byte-order mark -/
+example : (1048576 : Nat) < be32 [0xef, 0xbb, 0xbf, 0x4c] ∧ 128 ≤ (0xef : UInt8).toNat ∧
+    (1048576 : Nat) < 2147483648 := by decide
+
+example : (readMessage 1048576 ⟨[0xef, 0xbb, 0xbf, 0x4c, 0x69], [1, 1, 1, 1], .eofSeparate⟩).res
+    = .tooLarge 4022058828 := by decide
+
+/-- the 32-bit arithmetic on the last prefix of the range and on the sign boundary -/
+example : msgSize [0xff, 0xff, 0xff, 0xff] = 4294967295 ∧ msgSize [0x80, 0, 0, 0] = 2147483648 ∧
+    msgSize [0x7f, 0xff, 0xff, 0xff] = 2147483647 := by decide
+
+/-- **The limits in the source are the documented ones.**  The runner calls
+`ReadDelimitedMessage` in exactly two places; the limit it passes where it reads the server's
+response is 1 MB and where it reads the client's responses 16 MB — the model's `Site.limit`
+(`Generated/C09Facts.lean` is extracted from the tree on every run: the argument expression of each
+call, evaluated, and the two constants as compiled). -/
+theorem site_limits_from_source :
+    Generated.C09Facts.serverRunnerLimits = [Site.limit .server] ∧
+    Generated.C09Facts.clientRunnerLimits = [Site.limit .client] ∧
+    Generated.C09Facts.otherCallSites = 0 ∧
+    Generated.C09Facts.maxServerResponseSize = Site.limit .server ∧
+    Generated.C09Facts.maxClientResponseSize = Site.limit .client := by decide
+
+/-- **Oversize at each call site**: `oversize_rejected_early` with the limit of the site — a
+server (client) that announces more than 1 MB (16 MB) after any number of good messages is
+reported as too large after exactly the four prefix bytes, and no buffer above the site's limit
+is allocated on the way. -/
+theorem oversize_rejected_early_at_site (s : Site) (msgs : List Bytes) (n : Nat) (rest : Bytes)
+    (caps : List Nat) (e : Ending) (hf : Fits s.limit msgs) (hn : s.limit < n) (h32 : n < 4294967296) :
+    (readAllWith (readAt s) (msgs.length + 1) ⟨msgs.flatMap encode ++ (putBe32 n ++ rest), caps, e⟩).results
+        = msgs.map Res.msg ++ [Res.tooLarge n] ∧
+    (readAllWith (readAt s) (msgs.length + 1) ⟨msgs.flatMap encode ++ (putBe32 n ++ rest), caps, e⟩).rest.data
+        = rest ∧
+    ∀ a ∈ (readAllWith (readAt s) (msgs.length + 1) ⟨msgs.flatMap encode ++ (putBe32 n ++ rest), caps, e⟩).allocs,
+      a = 4 ∨ a ≤ s.limit := by
+  have h := oversize_rejected_early s.limit msgs n rest caps e hf hn h32
+  exact ⟨h.1, h.2, allocs_bounded s.limit _ _⟩
+
+example : Fits (Site.limit .server) [[1, 2], []] ∧ Site.limit .server < 1048577 :=
+  ⟨by intro m hm; simp at hm; rcases hm with h | h <;> subst h <;> decide, by decide⟩
+
+/-- **Between the two limits** (1 MB < n ≤ 16 MB) the sites differ: where the server's response
+is read the prefix is rejected with only the prefix buffer allocated; where the client's responses
+are read the same prefix is accepted (n bytes are asked for and, if they come, they are the message). -/
+theorem between_the_limits (n : Nat) (h1 : 1048576 < n) (h2 : n ≤ 16777216) (rest : Bytes)
+    (caps : List Nat) (e : Ending) :
+    (∃ caps', readAt .server ⟨putBe32 n ++ rest, caps, e⟩ = ⟨.tooLarge n, ⟨rest, caps', e⟩, [4]⟩) ∧
+    (readAt .client ⟨putBe32 n ++ rest, caps, e⟩).allocs = [4, n] ∧
+    (n ≤ rest.length → (readAt .client ⟨putBe32 n ++ rest, caps, e⟩).res = .msg (rest.take n)) := by
+  have h32 : n < 4294967296 := by omega
+  have hl : 4 ≤ (putBe32 n ++ rest).length := by simp [putBe32]
+  have ht : (putBe32 n ++ rest).take 4 = putBe32 n := by simp [putBe32]
+  have hd : (putBe32 n ++ rest).drop 4 = rest := by simp [putBe32]
+  have hv : be32 ((putBe32 n ++ rest).take 4) = n := by rw [ht, be32_putBe32 n h32]
+  refine ⟨?_, ?_, ?_⟩
+  · obtain ⟨caps', h⟩ := readMessage_tooLarge (Site.limit .server) (putBe32 n ++ rest) caps e hl
+      (by rw [hv]; exact h1)
+    exact ⟨caps', by rw [hv, hd] at h; exact h⟩
+  · by_cases hs : n ≤ rest.length
+    · obtain ⟨caps', h⟩ := readMessage_msg (Site.limit .client) (putBe32 n ++ rest) caps e hl
+        (by rw [hv]; exact h2) (by rw [hv]; simp [putBe32]; omega)
+      unfold readAt; rw [h, hv]
+    · obtain ⟨caps', h⟩ := readMessage_body_short (Site.limit .client) (putBe32 n ++ rest) caps e hl
+        (by rw [hv]; exact h2) (by rw [hv]; simp [putBe32]; omega)
+      unfold readAt; rw [h, hv]
+  · intro hs
+    obtain ⟨caps', h⟩ := readMessage_msg (Site.limit .client) (putBe32 n ++ rest) caps e hl
+      (by rw [hv]; exact h2) (by rw [hv]; simp [putBe32]; omega)
+    unfold readAt; rw [h, hv, hd]
+
+example : (1048576 : Nat) < 1048577 ∧ (1048577 : Nat) ≤ 16777216 := by decide
+
+example : (readAt .server ⟨putBe32 2097152 ++ [0, 0], [], .eofSeparate⟩).res = .tooLarge 2097152 ∧
+    (readAt .client ⟨putBe32 2097152 ++ [0, 0], [], .eofSeparate⟩).res = .unexpectedEOF := by decide
+
 
 /-- **Progress at a stall**: when the peer stalls `k` bytes into the frame of `m`
 (`0 ≤ k < 4 + |m|`; `k = 0`: between messages), the time-out carries exactly the bytes of
